@@ -478,7 +478,7 @@ func (c *CreateTableStatement) Format(opts FormatOptions) string {
 		sb.WriteString(f.kw("IF NOT EXISTS"))
 		sb.WriteString(" ")
 	}
-	sb.WriteString(c.Name)
+	sb.WriteString(safeQualifiedName(c.Name))
 
 	if opts.NewlinePerClause {
 		sb.WriteString(" (\n")
@@ -516,7 +516,7 @@ func (c *CreateTableStatement) Format(opts FormatOptions) string {
 		sb.WriteString(" ")
 		sb.WriteString(f.kw("INHERITS"))
 		sb.WriteString(" (")
-		sb.WriteString(strings.Join(c.Inherits, ", "))
+		sb.WriteString(strings.Join(qualifiedNames(c.Inherits), ", "))
 		sb.WriteString(")")
 	}
 
@@ -642,11 +642,11 @@ func (c *CreateIndexStatement) Format(opts FormatOptions) string {
 		sb.WriteString(f.kw("IF NOT EXISTS"))
 		sb.WriteString(" ")
 	}
-	sb.WriteString(c.Name)
+	sb.WriteString(safeQualifiedName(c.Name))
 	sb.WriteString(" ")
 	sb.WriteString(f.kw("ON"))
 	sb.WriteString(" ")
-	sb.WriteString(c.Table)
+	sb.WriteString(safeQualifiedName(c.Table))
 
 	if c.Using != "" {
 		sb.WriteString(" ")
@@ -658,7 +658,7 @@ func (c *CreateIndexStatement) Format(opts FormatOptions) string {
 	sb.WriteString(" (")
 	cols := make([]string, len(c.Columns))
 	for i, col := range c.Columns {
-		s := col.Column
+		s := safeName(col.Column)
 		if col.Collate != "" {
 			s += " " + f.kw("COLLATE") + " " + col.Collate
 		}
@@ -711,11 +711,11 @@ func (c *CreateViewStatement) Format(opts FormatOptions) string {
 		sb.WriteString(f.kw("IF NOT EXISTS"))
 		sb.WriteString(" ")
 	}
-	sb.WriteString(c.Name)
+	sb.WriteString(safeQualifiedName(c.Name))
 
 	if len(c.Columns) > 0 {
 		sb.WriteString(" (")
-		sb.WriteString(strings.Join(c.Columns, ", "))
+		sb.WriteString(strings.Join(safeNames(c.Columns), ", "))
 		sb.WriteString(")")
 	}
 
@@ -757,11 +757,11 @@ func (c *CreateMaterializedViewStatement) Format(opts FormatOptions) string {
 		sb.WriteString(f.kw("IF NOT EXISTS"))
 		sb.WriteString(" ")
 	}
-	sb.WriteString(c.Name)
+	sb.WriteString(safeQualifiedName(c.Name))
 
 	if len(c.Columns) > 0 {
 		sb.WriteString(" (")
-		sb.WriteString(strings.Join(c.Columns, ", "))
+		sb.WriteString(strings.Join(safeNames(c.Columns), ", "))
 		sb.WriteString(")")
 	}
 
@@ -814,7 +814,7 @@ func (r *RefreshMaterializedViewStatement) Format(opts FormatOptions) string {
 		sb.WriteString(f.kw("CONCURRENTLY"))
 		sb.WriteString(" ")
 	}
-	sb.WriteString(r.Name)
+	sb.WriteString(safeQualifiedName(r.Name))
 
 	if r.WithData != nil {
 		sb.WriteString(f.clauseSep())
@@ -848,7 +848,7 @@ func (d *DropStatement) Format(opts FormatOptions) string {
 		sb.WriteString(f.kw("IF EXISTS"))
 		sb.WriteString(" ")
 	}
-	sb.WriteString(strings.Join(d.Names, ", "))
+	sb.WriteString(strings.Join(qualifiedNames(d.Names), ", "))
 
 	if d.CascadeType != "" {
 		sb.WriteString(" ")
@@ -874,7 +874,7 @@ func (t *TruncateStatement) Format(opts FormatOptions) string {
 	sb.WriteString(" ")
 	sb.WriteString(f.kw("TABLE"))
 	sb.WriteString(" ")
-	sb.WriteString(strings.Join(t.Tables, ", "))
+	sb.WriteString(strings.Join(qualifiedNames(t.Tables), ", "))
 
 	if t.RestartIdentity {
 		sb.WriteString(" ")
@@ -931,7 +931,7 @@ func (m *MergeStatement) Format(opts FormatOptions) string {
 	sb.WriteString(tableRefSQL(&m.TargetTable))
 	if m.TargetAlias != "" {
 		sb.WriteString(" ")
-		sb.WriteString(m.TargetAlias)
+		sb.WriteString(safeName(m.TargetAlias))
 	}
 
 	sb.WriteString(f.clauseSep())
@@ -940,7 +940,7 @@ func (m *MergeStatement) Format(opts FormatOptions) string {
 	sb.WriteString(tableRefSQL(&m.SourceTable))
 	if m.SourceAlias != "" {
 		sb.WriteString(" ")
-		sb.WriteString(m.SourceAlias)
+		sb.WriteString(safeName(m.SourceAlias))
 	}
 
 	sb.WriteString(f.clauseSep())
@@ -981,7 +981,7 @@ func (m *MergeStatement) Format(opts FormatOptions) string {
 				sb.WriteString(" ")
 				sets := make([]string, len(when.Action.SetClauses))
 				for i, sc := range when.Action.SetClauses {
-					sets[i] = sc.Column + " = " + exprSQL(sc.Value)
+					sets[i] = safeQualifiedName(sc.Column) + " = " + exprSQL(sc.Value)
 				}
 				sb.WriteString(strings.Join(sets, ", "))
 			case "DELETE":
@@ -994,7 +994,7 @@ func (m *MergeStatement) Format(opts FormatOptions) string {
 				} else {
 					if len(when.Action.Columns) > 0 {
 						sb.WriteString(" (")
-						sb.WriteString(strings.Join(when.Action.Columns, ", "))
+						sb.WriteString(strings.Join(safeNames(when.Action.Columns), ", "))
 						sb.WriteString(")")
 					}
 					if len(when.Action.Values) > 0 {
